@@ -3,7 +3,7 @@ from gen import *
 import vlib, elfgen
 
 LEVEL = "proof"
-RULE = ("0..20 notes with namesz/descsz 0..40 (every residue), GNU ABI-tag/build-id/other GNU types, align in {1,2,4,8,16} and "
+RULE = ("0..20 notes with namesz/descsz 0..40 (every residue, header-only records; a boundary block where the last record ends exactly at the end of the data), GNU ABI-tag/build-id/other GNU types, align in {1,2,4,8,16} and "
         "arbitrary others (0, 3, 2^31, 2^63, 2^64-1), class x 5 specs, with/without trailing garbage or truncated last record; "
         "through the stand-alone NoteIterator, sections and segments of generated files. Oracle: independent python reference "
         "walk (stops at the first record that does not fit) + equality with the model. Non-trivial: >= 1 note yielded.")
@@ -72,6 +72,8 @@ def gen_notes(rng):
             notes.append((rng.choice([0, 2, 4, 5, 2**32 - 1]), b"GNU\0", rand_bytes(rng, rng.randrange(0, 41))))
         elif k < 0.45:
             notes.append((1, b"GNU\0", rand_bytes(rng, rng.choice([0, 15, 17, 32]))))     # wrong-size ABI tag
+        elif k < 0.52:
+            notes.append((rng.randrange(0, 10), b"", b""))                                    # header-only record
         else:
             nm = bytes(rng.choice(b"ABCxyz\0\xc3\xa9\xff") for _ in range(rng.randrange(0, 41)))
             if rng.random() < 0.5:
@@ -104,6 +106,38 @@ def gen(rng, tier):
         c = "notes %s %d %d %s | %s" % (spec, cl, align, hx(data), q)
         _info[c] = (little, cl, align, data)
         cases.append(c)
+    # boundary block: the last record ends exactly at the end of the data (with and without its final
+    # padding), for every small name/descriptor size incl. header-only records
+    k = 0
+    for nsz in range(0, 6):
+        for dsz in range(0, 6):
+            for align in (1, 2, 4, 8):
+                for npre in (0, 1):
+                    k += 1
+                    if tier == "quick" and k % 2 and (nsz, dsz) != (0, 0):
+                        continue
+                    spec = SPECS[k % len(SPECS)]
+                    little = spec_little(spec)
+                    cl = (32, 64)[k % 2]
+                    pre = [(7, b"AB\0", b"xyz")] * npre
+                    last = (k % 11, bytes(b"N" * max(0, nsz - 1) + (b"\0" if nsz else b"")), bytes(range(dsz)))
+                    data = elfgen.enc_notes(little, align, pre + [last])
+                    for strip in (False, True):
+                        dd = data
+                        if strip:
+                            dd = elfgen.enc_notes(little, align, pre)
+                            one = elfgen.enc_notes(little, align, [last]) if not pre else None
+                            # cut the final padding: header + name (+pad) + desc
+                            full = data
+                            padded_end = len(full)
+                            # recompute the unpadded end of the last descriptor
+                            base = len(dd)
+                            ne = base + 12 + len(last[1])
+                            ds = ne + (align - ne % align) % align
+                            dd = full[:ds + len(last[2])]
+                        c = "notes %s %d %d %s | all | nexts %d" % (spec, cl, align, hx(dd), npre + 3)
+                        _info[c] = (little, cl, align, dd)
+                        cases.append(c)
     # through sections / segments of files
     m = 150 if tier == "quick" else 3000
     for i in range(m):
